@@ -1,7 +1,11 @@
 SPECIFICATION Spec
 CONSTANTS W = 2
           WS = 1
-          Deep = {"int8"}
-          OptSet = {"default", "useall"}
+          Deep = {}
+          OptSet = {"default", "useall", "export", "exporttop", "tng", "tng_export", "tng_exporttop"}
+          Reps = 1
+          RepW = 0
+          Which = "all"
+          MutualFull = FALSE
 INVARIANTS L2SoundModulo
 CHECK_DEADLOCK FALSE
